@@ -93,6 +93,15 @@ func buildLB(e *worlds.Env, forC11 bool) (*lbWorld, *lbSample) {
 		for j := 0; j < npeers; j++ {
 			k++
 			addr := fmt.Sprintf("10.1.%d.%d:80", i, j+1)
+			if j > 0 && i > 0 && tp.Prob(1, 2, "shared-peer") {
+				// a peer that also belongs to an earlier upstream: its counters are shared
+				// (global peer pool), so one peer of this upstream can be busy or failed
+				// while the other is not
+				addr = L.addrs[tp.Choose(i, "shared-with")][0]
+				as = append(as, addr)
+				dials = append(dials, "tcp/"+addr)
+				continue
+			}
 			as = append(as, addr)
 			dials = append(dials, "tcp/"+addr)
 			L.ups.Add("tcp", addr, tp.Pick("dial-lat-ms", 0, 0, 3, 40))
